@@ -39,6 +39,8 @@ type vcAttr struct {
 	Time      bool     `json:"time"`
 	Frag      bool     `json:"frag"`
 	Age       int      `json:"age"`
+	About     string   `json:"about"` // administrative record: the catalogue bundle the status report is about ("" = some unknown bundle)
+	RKind     string   `json:"rkind"` // received | forwarded | delivered | deleted
 }
 
 func (a vcAttr) unkFlags() (has bool, flags bpv7.BlockControlFlags) {
@@ -483,7 +485,19 @@ func (w *vcWorld) build(name string) bpv7.Bundle {
 	}
 	if a.Admin {
 		ref := vcRefBundle()
-		ar, _ := bpv7.AdministrativeRecordToCbor(bpv7.NewStatusReport(ref, bpv7.ReceivedBundle, bpv7.NoInformation, bpv7.DtnTimeNow()))
+		kind := bpv7.ReceivedBundle
+		if a.About != "" {
+			ref = w.build(a.About)
+			switch a.RKind {
+			case "forwarded":
+				kind = bpv7.ForwardedBundle
+			case "delivered":
+				kind = bpv7.DeliveredBundle
+			case "deleted":
+				kind = bpv7.DeletedBundle
+			}
+		}
+		ar, _ := bpv7.AdministrativeRecordToCbor(bpv7.NewStatusReport(ref, kind, bpv7.NoInformation, bpv7.DtnTimeNow()))
 		ar.BlockNumber = 1
 		cbs = append(cbs, ar)
 	} else {
